@@ -487,6 +487,7 @@ fn c08(t: &[&str], out: &str) -> R {
             }
             Ok(true)
         }
+        "itera" => itera_oracle(t, out),
         "iter" => {
             let n = us(t[2]);
             let k = us(t[3]);
@@ -970,6 +971,71 @@ fn c10(t: &[&str], out: &str) -> R {
     }
 }
 
+
+/// item number `p` of `all_functions(n)` by definition (the number `p` written in the table), `None`
+/// once `p` reaches 2^(2^n)
+fn iter_item(n: usize, p: u128) -> Option<Tab> {
+    if n <= 6 && p >= (1u128 << (1u32 << n)) {
+        return None;
+    }
+    if p > u64::MAX as u128 {
+        return None; // not reachable by the workload for n >= 7
+    }
+    let mut t = Tab::zero(n);
+    t.w[0] = p as u64;
+    Some(t)
+}
+
+fn itera_expected(t: &[&str]) -> Option<String> {
+    let n = us(t[2]);
+    let a = us(t[3]) as u128;
+    let b = us(t[5]) as u128;
+    let show = |o: Option<Tab>| o.map_or("none".to_string(), |x| x.show());
+    let total: u128 = if n <= 6 { 1u128 << (1u32 << n) } else { u128::MAX };
+    let left = total.saturating_sub(a);
+    Some(match t[4] {
+        "nth" | "skip" => {
+            let r = iter_item(n, a + b);
+            let r2 = if r.is_some() { iter_item(n, a + b + 1) } else { None };
+            format!("ok {} {}", show(r), show(r2))
+        }
+        "stepby" => {
+            let mut v = Vec::new();
+            let mut dead = false;
+            for k in 0..5u128 {
+                let r = if dead { None } else { iter_item(n, a + k * b) };
+                dead = r.is_none();
+                v.push(show(r));
+            }
+            format!("ok {}", v.join(" "))
+        }
+        "count" => format!("ok {} none", left),
+        "last" | "max" => format!("ok {} none", show(if left > 0 { iter_item(n, total - 1) } else { None })),
+        "min" => format!("ok {} none", show(if left > 0 { iter_item(n, a) } else { None })),
+        "fold" => {
+            let mut h = FNV_INIT;
+            let mut p = a;
+            while p < total {
+                for w in &iter_item(n, p).unwrap().w {
+                    h = digest_step(h, *w);
+                }
+                p += 1;
+            }
+            format!("ok {:x} none", h)
+        }
+        "hint" => "ok 1".to_string(),
+        _ => return None,
+    })
+}
+
+fn itera_oracle(t: &[&str], out: &str) -> R {
+    let want = itera_expected(t).ok_or("unknown itera kind")?;
+    if out != want {
+        return Err(format!("all_functions().{}: expected `{}`, implementation says `{}`", t[4], want, out));
+    }
+    Ok(true)
+}
+
 // ------------------------------------------------------------------ C02
 
 fn c02(t: &[&str], out: &str) -> R {
@@ -993,6 +1059,17 @@ fn c02(t: &[&str], out: &str) -> R {
             ));
         }
         return Ok(true);
+    }
+    if t[0] == "itera" {
+        let n = us(t[2]);
+        for tok in out.split_whitespace() {
+            if let Some(r) = parse_tab(tok) {
+                if r.n != n || !r.wf() {
+                    return Err(format!("all_functions().{} returned a malformed table {}", t[4], tok));
+                }
+            }
+        }
+        return itera_oracle(t, out);
     }
     if t[0] != "hist" {
         return Ok(false);
@@ -1904,11 +1981,37 @@ fn c19(t: &[&str], out: &str) -> R {
 }
 
 pub fn check(prop: &str, line: &str) -> R {
+    // `seq A ;; B ;; ...`: the calls one after the other on one fresh thread; every result is
+    // held against the property on its own (the property knows no state kept between calls)
+    if let Some(rest) = line.strip_prefix("seq ") {
+        let parts: Vec<String> = rest.split(" ;; ").map(|s| s.trim().to_string()).collect();
+        let l = line.to_string();
+        let out = std::thread::spawn(move || run_line(&l)).join().unwrap_or_else(|_| "panic".to_string());
+        let outs: Vec<&str> = out.split(" ;; ").collect();
+        if outs.len() != parts.len() {
+            return Err(format!("sequence did not run: `{}`", out));
+        }
+        let mut any = false;
+        for (p, o) in parts.iter().zip(outs) {
+            let o = o.strip_prefix('[').unwrap_or(o);
+            let o = o.strip_suffix(']').unwrap_or(o);
+            match check_out(prop, p, o) {
+                Err(e) => return Err(format!("in this sequence of calls, `{}`: {}", p, e)),
+                Ok(b) => any |= b,
+            }
+        }
+        return Ok(any);
+    }
+    let out = run_line(line);
+    check_out(prop, line, &out)
+}
+
+fn check_out(prop: &str, line: &str, out: &str) -> R {
+    let out = out.to_string();
     let t: Vec<&str> = line.split_whitespace().collect();
     if t.is_empty() {
         return Ok(false);
     }
-    let out = run_line(line);
     if out == "bad-op" {
         return Err("harness could not run this line (bad-op)".to_string());
     }
